@@ -248,6 +248,9 @@ func runC08case(t *vf.T, c c08case) {
 	sig := "ops=" + opSig(&sp)
 	var argA, argB interface{}
 	results := map[uint64]*exec.Result{}
+	// the same earlier results as a worker holds them: (*worker).Compile keeps
+	// &Result{Slice, tasks} per invocation, without the bookkeeping Session.run adds on the driver
+	workerResults := map[uint64]*exec.Result{}
 	if c.WithArg {
 		// compile an earlier invocation and hand its Result to the program, as a worker would see it
 		base := Spec{Run: sp.Run + "-arg", Nodes: []PNode{{Op: "const", Shards: 3, Rows: 9, Out: []string{"int", "string"}, Salt: 5, Mod: 10}, {Op: "filter", In: []int{0}, P: 3, Salt: 1}}}
@@ -259,6 +262,7 @@ func runC08case(t *vf.T, c c08case) {
 		}
 		res := exec.VerifMakeResult(slice0, tasks0, inv0.Index())
 		results[inv0.Index()] = res
+		workerResults[inv0.Index()] = exec.VerifMakeResult(slice0, tasks0, 0)
 		argA = res
 	}
 	var cacheDir string
@@ -316,7 +320,7 @@ func runC08case(t *vf.T, c c08case) {
 		c08setFiles(cacheDir, c.CacheShards, c.WorkerPresent)
 		t.Count("cache_programs", 1)
 	}
-	winv, err := exec.VerifDecodeInvocation(enc, results)
+	winv, err := exec.VerifDecodeInvocation(enc, workerResults)
 	if err != nil {
 		t.Violate(sig+" decode-error", err.Error())
 		return
